@@ -263,7 +263,7 @@ func init() {
 		Rule: "E1 over all login paths (password, OTP, OAuth2, recover-and-login, both 2FA steps) x lock/confirm state changes (failures, admin lock/unlock, re-started confirmation, lock expiry) in both handler orders; classes = login kinds completed and refused while locked/unconfirmed",
 		Units: func(tier string) []engine.Unit {
 			scs := c03Scenarios(tier)
-			return e1Units(append(scs, configVariants(scs[:4], tier, "err500", "nil-state")...))
+			return e1Units(append(scs, configVariants(scs[:4], tier, "faults", "err500", "nil-state")...))
 		},
 		Assumptions: []string{"lock.Middleware / confirm.Middleware are placed behind authboss.Middleware2 as the README recommends", "bounded depth, 2-3 accounts, 2 browsers"},
 	})
